@@ -11,6 +11,7 @@ from ..monitors import make_spec, exc_outcome, Captured
 from ..runner import Lane, PASS, FAIL, DISCARD
 
 PROPERTY = 'C14'
+QUICK_SCALE = 1.5
 
 RULE = ('Three generators of specification texts: (1) grammar-derived files (typed formulas printed with random aliases/separators, '
         'wrapped with specification header, declarations, constants, several assertions, comments, odd whitespace); (2) token-level '
